@@ -5,6 +5,15 @@
 
 package opchild
 
+// the begin blocker only records the historical entry: validators, powers, params and the plan registry are out of its reach
+//@ func BeginBlocker
+//@   requires Params != None
+//@   requires forall k bytes :: LastValidatorPowers[k] != None ==> Validators[k] != None                                                                          // INV_VAL K2
+//@   requires forall a int64, b int64 :: a <= b && b < height && HistoricalInfos[a] != None ==> HistoricalInfos[b] != None                                           // INV_HIST
+//@   assumes height >= 0                                                                                                                                             // A-HEIGHT
+//@   ensures err == nil ==> HistoricalInfos[height] != None || val(Params).HistoricalEntries == 0                                                                   // C13: begin_block_records_the_current_height
+//@   assigns HistoricalInfos                                                                                                                                          // C14,C13: the plan is applied at the END of block h, nothing else moves at the beginning
+
 //@ func EndBlocker
 //@   let h := height % 18446744073709551616
 //@   let found := ExecutorChangePlans[h] != None
